@@ -401,7 +401,9 @@ def build_probe(ctx, k):
     raw = [(" " if rng.random() < 0.2 else "") + x + ("\t" if rng.random() < 0.2 else "") for x in listed]
     cfgset = {"mod": "cfg", "via": "load", "default": default, "locales": raw}
     sets.append(cfgset)
-    d = os.path.join(ctx.work, "probe")
+    from checks import isolate
+    d = isolate.probe_dir(ctx, "probe")
+    pname = isolate.probe_name(ctx, "h_ident_probe")
     shutil.rmtree(os.path.join(d, "locales"), ignore_errors=True)
     os.makedirs(os.path.join(d, "locales"), exist_ok=True)
     os.makedirs(os.path.join(d, "src"), exist_ok=True)
@@ -413,9 +415,9 @@ def build_probe(ctx, k):
     deps = deps.split("[package.metadata.leptos-i18n]")[0]
     wtoml = open(os.path.join(core.HARNESS, "Cargo.toml")).read()
     profile = wtoml[wtoml.index("[profile.dev]"):]
-    toml = ('[package]\nname = "h_ident_probe"\nversion = "0.1.0"\nedition = "2021"\n\n[workspace]\n\n%s\n%s\n'
+    toml = ('[package]\nname = "%s"\nversion = "0.1.0"\nedition = "2021"\n\n[workspace]\n\n%s\n%s\n'
             '[package.metadata.leptos-i18n]\ndefault = %s\nlocales = %s\n' % (
-                deps, profile, json.dumps(default), json.dumps(raw)))
+                pname, deps, profile, json.dumps(default), json.dumps(raw)))
     sync_file(os.path.join(d, "Cargo.toml"), toml)
     shutil.copy(os.path.join(core.HARNESS, "Cargo.lock"), os.path.join(d, "Cargo.lock"))
     sync_file(os.path.join(d, "src", "sets.rs"), render_sets_rs(sets))
@@ -429,7 +431,7 @@ def build_probe(ctx, k):
                            env={"CARGO_TARGET_DIR": core.TARGET, "RUSTFLAGS": "--cap-lints warn"})
     if rc != 0:
         return sets, None, (out + err)[-3000:]
-    return sets, os.path.join(core.TARGET, "debug", "h_ident_probe"), ""
+    return sets, os.path.join(core.TARGET, "debug", pname), ""
 
 
 # ------------------------------------------------------------------ the check
@@ -442,6 +444,8 @@ def cfg_of_harness():
 
 
 def run(ctx):
+    from checks import isolate
+    isolate.enter(ctx)
     if sync_file(os.path.join(HARNESS_DIR, "src", "sets.rs"), render_sets_rs(SETS)):
         ctx.say("C13: harness/h_ident/src/sets.rs re-rendered from SETS")
     cfgset = [st for st in SETS if st["via"] == "load"][0]
@@ -528,6 +532,8 @@ def normalised_default(m):
 
 
 def replay(ctx, path):
+    from checks import isolate
+    isolate.enter(ctx)
     obj = json.load(open(path))
     print(json.dumps(obj, indent=1, ensure_ascii=False))
     fi = obj.get("failing_input") or obj.get("first_disagreeing_input")
